@@ -149,7 +149,29 @@ func init() {
 			e.idx = in.term
 			return e
 		},
-		// EnumIndex(s, choices...) the index of an enum string among choices (symbolic)
+		// EnumMap(e, to...): the string to[i] where e is its i-th choice (same selector)
+		"EnumMap": func(r *Run, fr *frame, a []value) value {
+			from, to := a[1].([]value), a[2].([]value)
+			lookup := func(c string) string {
+				for j := range from {
+					if from[j].(string) == c {
+						return to[j].(string)
+					}
+				}
+				return c
+			}
+			switch e := a[0].(type) {
+			case *enumStr:
+				out := &enumStr{idx: e.idx}
+				for _, c := range e.choices {
+					out.choices = append(out.choices, lookup(c))
+				}
+				return out
+			case string:
+				return lookup(e)
+			}
+			panic(unsupported("EnumMap"))
+		},
 		"Assume": func(r *Run, fr *frame, a []value) value {
 			r.assume(boolTerm(r.pool, a[0]))
 			return nil
@@ -501,8 +523,52 @@ func bufAppend(pb value, b []value) {
 }
 
 func concatStr(parts []value) value {
+	// finite-choice parts: keep the result a finite-choice string when everything else is concrete
+	var sel *Term
+	enums, allConc := 0, true
+	for _, p := range parts {
+		switch p := p.(type) {
+		case *enumStr:
+			enums++
+			if sel == nil {
+				sel = p.idx
+			} else if sel != p.idx {
+				allConc = false
+			}
+		case string:
+		default:
+			allConc = false
+		}
+	}
+	if enums > 0 && allConc {
+		var first *enumStr
+		for _, p := range parts {
+			if e, ok := p.(*enumStr); ok {
+				first = e
+				break
+			}
+		}
+		out := &enumStr{idx: sel}
+		for i := range first.choices {
+			s := ""
+			for _, p := range parts {
+				switch p := p.(type) {
+				case *enumStr:
+					s += p.choices[i]
+				case string:
+					s += p
+				}
+			}
+			out.choices = append(out.choices, s)
+		}
+		return out
+	}
 	var out []value
 	for _, p := range parts {
+		if _, ok := p.(*enumStr); ok {
+			out = append(out, strBytes("\x00enum\x00")...)
+			continue
+		}
 		out = append(out, strBytes(p)...)
 	}
 	return mkStr(out)
@@ -708,8 +774,12 @@ func (r *Run) formatOne(fr *frame, verb string, arg value) value {
 		}
 		return "\x00sym" + string(v) + "\x00"
 	case *enumStr:
-		// the text of a symbolic token kind is not the subject of any check: opaque placeholder
-		return "\x00enum" + string(v) + "\x00"
+		// format every choice; the result is again a finite-choice string on the same selector
+		out := &enumStr{idx: a.idx}
+		for _, c := range a.choices {
+			out.choices = append(out.choices, fmt.Sprintf(verb, c))
+		}
+		return out
 	case symInt:
 		if v == 'c' {
 			p := r.pool
